@@ -182,17 +182,39 @@ def exec_multi_wcs(case, k, classes, desc):
         pio = PyramidIO(os.path.join(d, "run"), default_format="fits")
         with warnings.catch_warnings():
             warnings.simplefilter("ignore")
-            proc = multi_wcs.MultiWcsProcessor(collection.load(paths))
+            coll = collection.load(paths)
+            armed = []
+            E2 = exc_class(case.get("exc", "runtime") if case.get("exc") != "kill" else "runtime")
+
+            class FailingCollection(object):
+                """the collection as given, except that (once armed) input `fail_input` cannot be loaded"""
+
+                def images(self_):
+                    for i, im in enumerate(coll.images()):
+                        if armed and i == fail_input:
+                            raise E2(f"injected failure while loading input {fail_input} in the dispatching process")
+                        yield im
+
+                def __getattr__(self_, name):
+                    return getattr(coll, name)
+
+            proc = multi_wcs.MultiWcsProcessor(FailingCollection() if case.get("site") == "dispatcher" else coll)
             try:
                 proc.compute_global_pixelization(Builder(pio))
             except Exception:
                 return Outcome(classes=classes + ["pixelization-refused"], nontrivial=False)
 
+        reproj = failing_reproject
+        if case.get("site") == "dispatcher":
+            # the failure happens in the process that hands the work out: an input image cannot be loaded when its turn comes
+            reproj = stub_reproject
+            armed.append(1)
+
         def make_target(w):
             def go():
                 with warnings.catch_warnings():
                     warnings.simplefilter("ignore")
-                    proc.tile(pio, failing_reproject, parallel=k)
+                    proc.tile(pio, reproj, parallel=k)
 
             return go
 
@@ -200,6 +222,8 @@ def exec_multi_wcs(case, k, classes, desc):
     desc["failing_input"] = fail_input
     judge(desc, status, exc, hang)
     classes.append("inputs%d" % n)
+    if case.get("site") == "dispatcher":
+        classes.append("failure-in-the-dispatching-process")
     return Outcome(classes=classes, nontrivial=k >= 2 and fail_input > 0, info={"failing_input": fail_input})
 
 
@@ -327,6 +351,8 @@ def strat(draw, tier):
         from .c03 import strat_multi_wcs
 
         case = draw(strat_multi_wcs(tier))
+        if draw(st.integers(0, 2)) == 0:
+            case["site"] = "dispatcher"
         case["stage"] = stage
         case["k"] = draw(st.sampled_from([1, 2, 2, 3]))
         if case["k"] == 1:
